@@ -96,9 +96,34 @@ def _snap(x, depth=0):
 
 
 # ---- representation variants of array arguments (same values, other memory layout / flags) ---------
-VARIANT_ENTRY_POINTS = {"bottleneck", "wasserstein", "heat", "sliced_wasserstein", "persistent_entropy", "transform",
+VARIANT_ENTRY_POINTS = set()
+VARIANT_ENTRY_POINTS |= {"bottleneck", "wasserstein", "heat", "sliced_wasserstein", "persistent_entropy", "transform",
                         "gaussian", "bvn_cdf", "sbvn_cdf", "uniform", "norm_cdf", "death_vector", "linear_ramp", "persistence"}
-VARIANT_NAMES = ["fortran-order", "strided-view", "read-only", "negative-stride-view"]
+VARIANT_ENTRY_POINTS |= {"PersLandscapeExact", "PersLandscapeApprox"}
+VARIANT_NAMES = ["fortran-order", "strided-view", "read-only", "negative-stride-view", "reused-buffer"]
+_BUFFERS = {}
+
+
+def _reused_buffers(x, path=(), fill=True, fresh=None):
+    """x with every ndarray replaced by a PERSISTENT buffer object of the same shape/dtype (one per argument
+    position, kept for the life of the process): the same objects, with other contents, come back on every
+    later call - what a caller who refills a preallocated array does.  fill=False returns the buffers with
+    the contents a previous call left in them (`fresh` collects True for buffers that did not exist yet)."""
+    if isinstance(x, np.ndarray) and x.ndim >= 1 and x.size > 0 and x.dtype != object:
+        key = (path, x.shape, x.dtype.str)
+        buf = _BUFFERS.get(key)
+        if buf is None:
+            buf = _BUFFERS[key] = np.zeros(x.shape, dtype=x.dtype)
+            if fresh is not None:
+                fresh.append(True)
+        if fill:
+            buf[...] = x
+        return buf
+    if isinstance(x, list) and len(path) < 4:
+        return [_reused_buffers(v, path + (i,), fill, fresh) for i, v in enumerate(x)]
+    if isinstance(x, tuple) and len(path) < 4:
+        return tuple(_reused_buffers(v, path + (i,), fill, fresh) for i, v in enumerate(x))
+    return x
 
 
 def _variant_of(x, kind, depth=0):
@@ -129,6 +154,18 @@ def _has_array(x, depth=0):
     if isinstance(x, (list, tuple)) and depth < 3:
         return any(_has_array(v, depth + 1) for v in x)
     return False
+
+
+def _snap_result(r, depth=0):
+    if isinstance(r, np.ndarray):
+        return ("nd", r.shape, r.tobytes() if r.dtype != object else repr(r.tolist()))
+    if isinstance(r, (tuple, list)) and depth < 3:
+        return tuple(_snap_result(v, depth + 1) for v in r)
+    if hasattr(r, "values") and hasattr(r, "num_steps"):
+        return _snap_result(np.asarray(r.values))
+    if hasattr(r, "critical_pairs"):
+        return repr(r.critical_pairs)
+    return None
 
 
 def _same_result(a, b, rtol=1e-11):
@@ -191,6 +228,7 @@ class Ctx:
         self._obs = []
         self._scratch = False
         self.call_variants = False      # set from the check module's CALL_VARIANTS
+        self._last_results = {}
         self._variant_counter = 0
 
     # ---- bookkeeping -------------------------------------------------------------------
@@ -233,7 +271,21 @@ class Ctx:
                 self.violation("argument-modified", "%s modified its argument(s) at position(s) %r in place" % (getattr(fn, "__name__", repr(fn)), pos),
                                observed=[jsonable(x) for x in a], extra={"entry": getattr(fn, "__name__", repr(fn)), "positions": pos})
             elif ok and self.call_variants and getattr(fn, "__name__", "") in VARIANT_ENTRY_POINTS and (_has_array(a) or _has_array(list(kw.values()))):
+                self._result_alias_check(fn, r)
                 self._variant_call(fn, a, kw, r)
+
+    def _result_alias_check(self, fn, r):
+        """A result handed out earlier must not change when the same entry point is called again
+        (a returned scratch / cache array that the next call overwrites)."""
+        name = getattr(fn, "__name__", repr(fn))
+        prev = self._last_results.get(name)
+        if prev is not None:
+            obj, snap = prev
+            self.validated += 1
+            if _snap_result(obj) != snap:
+                self.violation("result-overwritten", "a result returned by an earlier call of %s changed when %s was called again (results share a buffer)" % (name, name),
+                               extra={"entry": name})
+        self._last_results[name] = (r, _snap_result(r))
 
     def _variant_call(self, fn, a, kw, base):
         """The same call once more with every array argument in another memory layout (rotating through
@@ -244,15 +296,34 @@ class Ctx:
 
         self._variant_counter += 1
         kind = self._variant_counter % len(VARIANT_NAMES)
-        a2 = tuple(_variant_of(x, kind) for x in a)
-        kw2 = {k: _variant_of(v, kind) for k, v in kw.items()}
+        name = getattr(fn, "__name__", repr(fn))
+        if VARIANT_NAMES[kind] == "reused-buffer":
+            # first the same call on what an EARLIER call left in the buffers (result discarded, any
+            # exception ignored: old contents need not fit the other parameters), then on the refilled buffers
+            fresh = []
+            a1 = tuple(_reused_buffers(x, (name, i), False, fresh) for i, x in enumerate(a))
+            kw1 = {k: _reused_buffers(v, (name, k), False, fresh) for k, v in kw.items()}
+            if not fresh:
+                try:
+                    with warnings.catch_warnings():
+                        warnings.simplefilter("ignore")
+                        fn(*a1, **kw1)
+                    self.transitions += 1
+                except CaseTimeout:
+                    raise
+                except Exception:  # noqa: BLE001
+                    pass
+            a2 = tuple(_reused_buffers(x, (name, i)) for i, x in enumerate(a))
+            kw2 = {k: _reused_buffers(v, (name, k)) for k, v in kw.items()}
+        else:
+            a2 = tuple(_variant_of(x, kind) for x in a)
+            kw2 = {k: _variant_of(v, kind) for k, v in kw.items()}
         st = np.random.get_state()
         pst = random.getstate()
         np.random.seed(self._variant_counter % 9973)
         random.seed(self._variant_counter)
         self.transitions += 1
         self.counters["variant_calls:" + VARIANT_NAMES[kind]] += 1
-        name = getattr(fn, "__name__", repr(fn))
         try:
             with warnings.catch_warnings():
                 warnings.simplefilter("ignore")
